@@ -21,14 +21,18 @@
 use crate::canvas::RecCanvas;
 use crate::util::dec_str;
 use skim::prelude::*;
-use skim::verif::{current_run_num, ColorTheme, Event, EventHandler, MatchedItem, Selection};
+use skim::verif::{mark_new_run, ColorTheme, Event, EventHandler, MatchedItem, Selection};
 use skim::MatchRange;
 use std::panic::{catch_unwind, AssertUnwindSafe};
 use std::sync::Arc;
 use tuikit::attr::{Attr, Color, Effect};
 use tuikit::prelude::Draw;
 
+static CASE_NO: std::sync::atomic::AtomicUsize = std::sync::atomic::AtomicUsize::new(0);
+
 enum Op {
+    /// `mark_new_run` of command string number k (canonical run number k + 1; the case starts in run 0)
+    Run(u32),
     Ev(Event),
     Append(Vec<(u32, String, Option<MatchRange>)>),
     Clear,
@@ -97,6 +101,7 @@ fn parse_op(t: &str) -> Option<Op> {
             }
             Op::Append(v)
         }
+        "rn" => Op::Run(arg?.parse().ok()?),
         "w" => {
             let p: Vec<&str> = arg?.split(',').collect();
             if p.len() != 2 {
@@ -234,9 +239,16 @@ pub fn run(case: &str) -> String {
     options.color = color_opt;
     let theme = ColorTheme::init_from_options(&options);
     let mut sel = Selection::with_options(&options).theme(Arc::new(theme));
+    // run numbers are process-global: every case starts in a fresh run (canonical number 0); the command strings
+    // `rn:k` names get canonical number k + 1 — their REAL numbers may be lower than the current one (a command
+    // string used by an earlier case gets its old number back, exactly as when a user returns to an earlier command)
+    let case_no = CASE_NO.fetch_add(1, std::sync::atomic::Ordering::SeqCst);
+    let init_run = mark_new_run(&format!("c11-init-{}-{}", std::process::id(), case_no));
+    let mut canon: std::collections::HashMap<u32, u32> = std::collections::HashMap::new();
+    canon.insert(init_run, 0);
     let mut out = vec![format!(
         "H:{}:{}:{}:{}:{}:{}:{}",
-        current_run_num(),
+        0,
         attr(&theme.normal()),
         attr(&theme.matched()),
         attr(&theme.current()),
@@ -245,7 +257,15 @@ pub fn run(case: &str) -> String {
         attr(&theme.selected())
     )];
     for op in ops {
+        if let Op::Run(k) = &op {
+            let real = mark_new_run(&format!("c11-run-{}", k));
+            canon.insert(real, k + 1);
+            out.push(format!("s{}", state(&sel)));
+            continue;
+        }
+        let canon_ref = &canon;
         let r = catch_unwind(AssertUnwindSafe(|| match &op {
+            Op::Run(_) => String::new(),
             Op::Ev(ev) => {
                 let _ = sel.handle(ev);
                 format!("s{}", state(&sel))
@@ -277,7 +297,12 @@ pub fn run(case: &str) -> String {
                 let mut c = RecCanvas::new(*w, *h);
                 match sel.draw(&mut c) {
                     Ok(()) => {
-                        let keys = sel.verif_selected_keys();
+                        let mut keys: Vec<(u32, u32)> = sel
+                            .verif_selected_keys()
+                            .iter()
+                            .map(|(r, i)| (*canon_ref.get(r).unwrap_or(&999_999), *i))
+                            .collect();
+                        keys.sort();
                         let keys = if keys.is_empty() {
                             "_".to_string()
                         } else {
